@@ -6,7 +6,7 @@ use std::collections::BTreeSet;
 use crate::pma::{Entry, Kind, Spec, VType, Variant, ALL_VTYPES};
 use crate::rng::Rng;
 
-pub const NFB_CHOICES: [u32; 10] = [1, 2, 3, 5, 16, 16, 21, 22, 64, 255];
+pub const NFB_CHOICES: [u32; 12] = [1, 2, 3, 5, 16, 16, 21, 22, 64, 255, 300, 1000];
 
 #[derive(Clone, Copy, Debug, PartialEq, Eq)]
 pub enum PatClass {
@@ -132,7 +132,27 @@ pub fn gen_spec(rng: &mut Rng, o: &GenOpts) -> (Spec, PatClass) {
     }
     // extremely rarely: every 3-unit string over 41-43 symbols, i.e. a trie level with more than
     // 65 536 states (thresholds on the size of a breadth-first level or of the pattern count)
-    if !o.tiny && o.wide_max >= 400 && rng.chance(1, 1500) {
+    if !o.tiny && o.wide_max >= 400 && variant == Variant::Charwise && rng.chance(1, 2500) {
+        // char-wise only: more than 4096 distinct characters (block length 8192) and ~70 000 states
+        let firsts = rng.range(4100, 5200) as u32;
+        let seconds = rng.range(12, 15) as u32;
+        let mut pats: Vec<Vec<u8>> = Vec::with_capacity((firsts * seconds) as usize);
+        for x in 0..firsts {
+            for y in 0..seconds {
+                let mut s = String::new();
+                s.push(char::from_u32(0x4e00 + x).unwrap());
+                s.push(char::from_u32(0x61 + y).unwrap());
+                pats.push(s.into_bytes());
+            }
+        }
+        rng.shuffle(&mut pats);
+        let values: Vec<u64> = (0..pats.len() as u64).collect();
+        return (
+            Spec { variant, kind, num_free_blocks: *rng.pick(&[1u32, 16, 16, 64]), entry: Entry::WithValues, vtype: VType::U32, patterns: pats, values },
+            PatClass::Wide,
+        );
+    }
+    if !o.tiny && o.wide_max >= 400 && rng.chance(1, 700) {
         let a = rng.range(41, 43) as u32;
         let mut pats: Vec<Vec<u8>> = Vec::with_capacity((a * a * a) as usize);
         let sym = |i: u32| -> Vec<u8> {
@@ -154,7 +174,7 @@ pub fn gen_spec(rng: &mut Rng, o: &GenOpts) -> (Spec, PatClass) {
         rng.shuffle(&mut pats);
         let values: Vec<u64> = (0..pats.len() as u64).collect();
         return (
-            Spec { variant, kind, num_free_blocks: *rng.pick(&NFB_CHOICES), entry: Entry::WithValues, vtype: VType::U32, patterns: pats, values },
+            Spec { variant, kind, num_free_blocks: *rng.pick(&[1u32, 16, 64, 300, 1000, 1000]), entry: Entry::WithValues, vtype: VType::U32, patterns: pats, values },
             PatClass::Wide,
         );
     }
